@@ -44,6 +44,7 @@ KINDS = ["ret", "raise", "run", "run_sync", "check", "checkraise", "ctx"]
 CV: contextvars.ContextVar = contextvars.ContextVar("c14_cv", default=("cv", "unset"))
 CANCELLED = asyncio.CancelledError  # asyncio backend only
 SETTLE_TIMEOUT = 6.0
+CASE_TIMEOUT = 60.0
 NOT_CANCELLED_WAIT = 0.4
 
 
@@ -53,6 +54,20 @@ class HarnessError(Exception):
 
 class TagError(Exception):
     pass
+
+
+class _Hung(Exception):
+    pass
+
+
+def _find_exc(e: BaseException, cls: type) -> Any:
+    if isinstance(e, cls):
+        return e
+    for sub in getattr(e, "exceptions", ()):
+        f = _find_exc(sub, cls)
+        if f is not None:
+            return f
+    return None
 
 
 def _mk_loop_class(base: type) -> type:
@@ -287,6 +302,13 @@ class Run:
                 continue
             ok = 0
             if time.monotonic() > deadline:
+                hung = [i for i in range(self.n) if self.started[i] and not self.done[i]
+                        and self.left[i] and self.reported[i]]
+                if hung:
+                    # the function is over and its result was posted to the loop, yet run_sync does
+                    # not return: the property failing, not an infrastructure problem
+                    self.end_state["hung_calls"] = hung
+                    raise _Hung()
                 raise HarnessError("settle timed out: " + self.describe())
             await asyncio.sleep(0.0003)
 
@@ -433,12 +455,37 @@ class Run:
                 t.join(2.0)
             if worker_threads():
                 raise HarnessError("worker threads of a previous case still alive")
-        try:
-            anyio.run(self.main, backend_options={"loop_factory": loop_class(self.case.get("loop", "asyncio"))})
-        except HarnessError:
-            raise
-        except BaseException as e:  # anything escaping the task group is itself an observation
-            self.error = f"{type(e).__name__}: {e}"
+        def in_thread() -> None:
+            try:
+                anyio.run(self.main,
+                          backend_options={"loop_factory": loop_class(self.case.get("loop", "asyncio"))})
+            except BaseException as e:  # anything escaping the task group is itself an observation
+                he = _find_exc(e, HarnessError)
+                if he is not None:
+                    self.harness_error = he
+                elif _find_exc(e, _Hung) is None:
+                    self.error = f"{type(e).__name__}: {e}"
+
+        # the loop runs in a thread of its own so that a call that never returns (shielded wait on a
+        # future nobody resolves) cannot hang the check
+        self.harness_error: HarnessError | None = None
+        t = threading.Thread(target=in_thread, daemon=True, name="c14-loop")
+        t.start()
+        t0 = time.monotonic()
+        hung_at = None
+        while t.is_alive() and time.monotonic() - t0 < CASE_TIMEOUT:
+            t.join(0.05)
+            if self.end_state.get("hung_calls"):
+                hung_at = hung_at or time.monotonic()
+                if time.monotonic() - hung_at > 2.0:
+                    break
+        if self.harness_error is not None:
+            raise self.harness_error
+        if t.is_alive():
+            if not self.end_state.get("hung_calls"):
+                raise HarnessError("case did not finish: " + self.describe())
+            self.end_state["loop_thread_abandoned"] = True
+            return self
         for g in self.gates:
             g.set()
         deadline = time.monotonic() + 3.0
@@ -454,6 +501,10 @@ class Run:
 def oracle(r: Run) -> str | None:
     """The property text checked on the real history, without the model."""
     case, n = r.case, r.n
+    if r.end_state.get("hung_calls"):
+        i = r.end_state["hung_calls"][0]
+        return (f"call {i}: its function finished and reported its result but run_sync did not return "
+                f"within {SETTLE_TIMEOUT} s")
     if r.error:
         return f"unexpected exception escaped the callers' task group: {r.error}"
     enter_seq: dict[int, int] = {}
@@ -664,6 +715,9 @@ def run_cases(cases: list[dict], res: Result, ctx: Ctx | None = None) -> None:
         r = Run(case).run()
         runs.append(r)
         all_lines += [req for req, _ in r.lines]
+        if r.end_state.get("hung_calls"):
+            res.stats["aborted_after_hang"] = True
+            break
     all_lines.append("hits")
     replies = run_model("thread", all_lines)
     hits = replies[-1]
@@ -741,7 +795,7 @@ def run(ctx: Ctx) -> Result:
         res.stats["enumerated_orders_up_to"] = 6
     for k in range(0, len(cases), 100):
         run_cases(cases[k: k + 100], res, ctx)
-        if ctx.time_left() < 8:
+        if ctx.time_left() < 8 or res.stats.get("aborted_after_hang") or len(res.violations) > 20:
             break
     hit = res.stats.get("model_branch_hits", {})
     res.stats["model_branches_unhit"] = [b for b in ALL_BRANCHES if b not in hit]
